@@ -117,6 +117,11 @@ func (am *YAMLAccountManager) Update(account hotline.Account, newLogin string) e
 	if account.Login != newLogin {
 		oldLogin := account.Login
 
+		// Renaming onto a login that is taken would replace that account.
+		if _, taken := am.accounts[newLogin]; taken {
+			return fmt.Errorf("rename account %s to %s: %w", oldLogin, newLogin, os.ErrExist)
+		}
+
 		err := os.Rename(
 			filepath.Join(am.accountDir, path.Join("/", account.Login)+".yaml"),
 			filepath.Join(am.accountDir, path.Join("/", newLogin)+".yaml"),
